@@ -65,7 +65,7 @@ def _stem_job(args):
         if 'small' in var:
             plans.append(('small', var['small'], 'close'))
         for vn in var:
-            if vn.endswith('-matype'):
+            if vn.endswith('-matype') or vn.startswith('dev'):
                 plans.append((vn, var[vn], 'close'))
         if indreg.has(f, 'source_type'):
             plans.append(('default', var['default'], 'hl2'))
